@@ -6,7 +6,50 @@ SPEC = {
     'lean_modules': ['N2k.Props.C03'], 'props_files': ['N2k/Props/C03.lean'],
     'translators': ['pgn_tables'],
     'case_start': ['reset', 'bus'],
-    'trusted_base': [],
-    'assumptions': [],
+    'timeout': 3000,
+    'trusted_base': [
+        "model N2k/Model/Claim.lean transcribes GetNextAddress, HandleISOAddressClaim (incl. the equal-NAME device-instance bump), "
+        "HandleCommandedAddress (both overloads, WITH the fix: commit for C03:commanded-onto-sibling), FindSourceDeviceIndex, "
+        "StartAddressClaim()/Restart(), Open(), the claim-relevant part of ParseMessages, SetMode/SetN2kSource/"
+        "ReadResetAddressChanged by hand, on top of N2k/Model/Send.lean (SendMsg gate, StartAddressClaim(iDev), IsAddressClaimStarted, "
+        "both timer flavours); tied to the compiled code by the differential run only",
+        "frozen specification lean/N2k/Spec/Iso11783.lean (wire format of PGN 60928, arbitration rule, commanded address) and its C++ "
+        "twin in harness/claim.cpp (struct Foreign), both written from the public description of ISO 11783-5 / J1939-81",
+        "N2k/Model/Bus.lean: the bus is an atomic broadcast with FIFO inboxes; frames other than PGN 60928 (heartbeat, ISO-TP flow "
+        "control) are not on the model bus; the ISO-TP reassembly of PGN 65240 is NOT modelled (the harness feeds BAM/RTS+DT frames to "
+        "the real code, the model receives the reassembled (destination, NAME, address) triple)",
+        "fuel-bounded GetNextAddress loop (600 passes): C03_next_address proves dist+1 <= 253 passes suffice for well-formed devices; "
+        "for ill-formed configurations (addresses 252/253/255 set by the application) only the differential run speaks",
+    ],
+    'assumptions': [
+        "bus hypotheses of C03_unique_at_quiescence (BusOK): atomic broadcast to every node that is on the bus, no loss/reordering, "
+        "the CAN driver accepts every claim frame and the send queue is empty (claim sends not refused), PGN 60928 not declared "
+        "fast-packet by the application, claimant modes (NodeOnly/ListenAndNode), NAMEs < 2^64, configured addresses 0..251 or 254 and "
+        "distinct among the devices of one instance, foreign next-address choice < 256",
+        "a node that is not open / not started has no address on the bus, receives nothing and announces every device when it opens",
+        "one received item (claim frame or commanded-address message) per ParseMessages call in the bus model",
+        "liveness (a quiescent state is reached) is not proved - C03_converges_partial is the per-device progress measure; "
+        "convergence is explored by the harness (all schedules of 2-3 claimants, sampled 4-6, full-range wall)",
+        "dm_None; uint8_t address arithmetic; LP64",
+    ],
 }
-MANIFEST = {'text': "", 'design_ref': 'DESIGN.md section 4, C03', 'note': ""}
+MANIFEST = {
+    'text': "Kernel-checked for ANY number of nodes and EVERY interleaving of deliver/poll/time/commanded-address/restart steps: on a "
+            "bus of library instances (any number of devices each, transcribed ParseMessages/HandleISOAddressClaim/GetNextAddress/"
+            "HandleCommandedAddress/Open) and foreign ISO 11783-5 nodes (arbitrary next-address choice), the invariant 'two nodes "
+            "holding one valid address have a claim of one of them pending at the other' is preserved by every step, hence in every "
+            "reachable state with empty inboxes no two claimants on different nodes share an address 0..251, devices of one instance "
+            "never share a valid address, and every address is 0..251 or 254 (abstract core inv_step/unique_at_quiescence + refinement "
+            "from the library step through the real frame encoding). GetNextAddress: termination measure, first free address in cyclic "
+            "order with 251->0 wrap, 254 exactly at the end-of-search address. Arbitration: lower own NAME keeps and re-claims, higher "
+            "moves to GetNextAddress and claims / cannot-claim. Every own-address change sets AddressChanged in the same step; frames are "
+            "stamped with the device's current source. Correspondence: one real instance (1..9 devices, both timer builds, origins "
+            "near 2^32) and whole buses of real instances + reference ISO nodes under all schedules (2-3 claimants) / sampled schedules "
+            "(4-6) / fully occupied range, compared line by line with the model, plus a model-independent oracle (uniqueness at "
+            "quiescence, lower NAME keeps, change reported, frame carries the address GetN2kSource reports at send time).",
+    'design_ref': 'DESIGN.md section 4, C03',
+    'note': "partial: C03_converges_partial - liveness (the system reaches quiescence) is not proved, only the per-device progress "
+            "measure. Trusted: Lean kernel; hand model validated by the differential runs; ISO 11783-5 spec file; ISO-TP reassembly "
+            "of the commanded address and non-claim traffic are outside the model. Fixed on the tree the model describes: "
+            "C03:commanded-onto-sibling (HandleCommandedAddress took an address held by a sibling device).",
+}
